@@ -14,14 +14,16 @@ RULE = (
     "For each, the auditor's view q = min over stopping times n of (overall p of test(x[:n]) and every entry of its "
     "history) is taken from the real code and the exact step function alpha -> P(q <= alpha) is compared with alpha at "
     "every attained value below 1.  Non-trivial = (configuration, population/law) whose q takes a value below 1 with "
-    "positive probability; distinct = distinct (configuration, population/law, distribution of q)"
+    "positive probability; distinct = distinct (configuration, population/law, distribution of q).  Plus populations whose values are "
+    "not binary fractions: every multiset of 4 values from {0, 0.1, .., 1} whose mean, computed exactly from the floats, is <= t "
+    "(t = 0.45, 0.35), all orderings, six test configurations"
 )
 ASSUMPTIONS = [
     "tolerance 1e-9 relative on P(q<=alpha) <= alpha (legitimate tests attain the bound up to float rounding of the product)",
     "NaN never counts as '<= alpha' (NaN is C11's business)",
     "for N=inf the finite-horizon probability is a lower bound of the true one, so an excess is a real violation",
 ]
-REQUIRE_VAC = ["populations", "laws", "paths_with_q_below_1", "boundary_populations_mean_eq_t"]
+REQUIRE_VAC = ["populations_of_non_binary_values", "populations", "laws", "paths_with_q_below_1", "boundary_populations_mean_eq_t"]
 TOL = 1e-9
 MUTATED = {}
 
@@ -188,12 +190,79 @@ def run_cfg(sh, rec):
     rec.notes["largest_finite_ratio_P_over_alpha"] = worst_ratio
 
 
+# ---------------------------------------------------------------- populations whose values are not binary fractions
+DEC_METHODS = {
+    "alpha_mart+fixed_alternative_mean": {"test": "alpha_mart", "estim": "fixed_alternative_mean", "kw": {"eta": 0.6}},
+    "alpha_mart+shrink_trunc": {"test": "alpha_mart", "estim": "shrink_trunc", "kw": {"eta": 0.6}},
+    "betting_mart+fixed_bet": {"test": "betting_mart", "bet": "fixed_bet", "kw": {"lam": 0.5}},
+    "betting_mart+agrapa": {"test": "betting_mart", "bet": "agrapa", "kw": {"lam": 0.5}},
+    "kaplan_kolmogorov": {"test": "kaplan_kolmogorov", "kw": {"g": 0.1}},
+    "wald_sprt": {"test": "wald_sprt", "kw": {"eta": 0.6}},
+}
+DEC_T = (0.45, 0.35)
+
+
+def dec_populations(t):
+    """every multiset of 4 values from {0, 0.1, ..., 1} whose mean, computed exactly from the floating-point values, is at
+    most the floating-point t: null populations in the strictest sense"""
+    import itertools
+    from fractions import Fraction as Fr
+    vals = [i / 10 for i in range(11)]
+    for pop in itertools.combinations_with_replacement(vals, 4):
+        if sum(Fr(v) for v in pop) <= 4 * Fr(t):
+            yield pop
+
+
+def judge_decimal(mname, t, pop):
+    """exact risk over all orderings of one population (sampled completely, without replacement)"""
+    import itertools
+    import warnings
+    import numpy as np
+    from shangrla.core.NonnegMean import NonnegMean
+    m = DEC_METHODS[mname]
+    with warnings.catch_warnings():
+        warnings.simplefilter("ignore")
+        nm = NonnegMean(test=s1.TESTS[m["test"]], estim=s1.ESTIMS[m["estim"]] if m.get("estim") else None, bet=s1.BETS[m["bet"]] if m.get("bet") else None,
+                        u=1, N=4, t=t, **m["kw"])
+        qs = []
+        for perm in sorted(set(itertools.permutations(pop))):
+            p, h = nm.test(np.array(perm))
+            qs.append(min(float(p), float(np.nanmin(np.asarray(h, dtype=float)))))
+    n = len(qs)
+    for a in sorted(set(qs)):
+        P = sum(1 for q in qs if q <= a) / n
+        if a < 1 and P > a + TOL:
+            key = f"C01|{mname}|finite-N|risk-exceeds-alpha|non-binary-values|t={t}|population={','.join(format(v, 'g') for v in pop)}"
+            return [(key, f"{mname}, N=4, t={t}: the null population {list(pop)} (exact mean of the floats <= t) sampled completely gives P(p <= {a}) = {P:.4f} "
+                          f"over its {n} orderings: the running total is compared with N t in floating point and rounds one ulp above it")]
+    return []
+
+
+def run_decimal(sh, rec):
+    _, mname, t = sh
+    for pop in dec_populations(t):
+        rec.state()
+        rec.trans()
+        rec.evals(24)
+        rec.vac("populations_of_non_binary_values")
+        for key, what in judge_decimal(mname, t, pop):
+            rec.violate(key, what, {"decimal": True, "method": mname, "t": t, "pop": list(pop)})
+
+
+def run_shard(sh, rec):
+    if sh[0] == "decimal":
+        return run_decimal(sh, rec)
+    return run_cfg(sh, rec)
+
+
 def explore(tier, seed):
     D = 4 if tier == "quick" else 8
-    return core.pmap(run_cfg, [(c, D) for c in s1.configs(tier)], seed, progress="C01")
+    return core.pmap(run_shard, [(c, D) for c in s1.configs(tier)] + [("decimal", m, t) for m in DEC_METHODS for t in DEC_T], seed, progress="C01")
 
 
 def run_case(case):
+    if case.get("decimal"):
+        return judge_decimal(case["method"], case["t"], tuple(case["pop"]))
     cfg = case["cfg"]
     g = s1.grid(cfg)
     memo = {}
